@@ -20,6 +20,7 @@ from .core import (
     INT,
     NEG_INF,
     OBJ,
+    OPTINT,
     REAL,
     STR,
     Obligation,
@@ -120,6 +121,11 @@ class ClassVal:
 class NS:
     def __init__(self, name, attrs):
         self.name, self.attrs = name, attrs
+
+
+class SuperVal:
+    def __init__(self, owner, self_val):
+        self.owner, self.self_val = owner, self_val
 
 
 class EmptyLit:
@@ -230,12 +236,14 @@ class Ctx:
         self.obls: list[Obligation] = []
         self.cur = Sym(z3.Int("cur_task"), RefT("Task"))
         self.st.assume(self.cur.t > 0)
+        self.st.assume(z3.And(NEG_INF < 0, 0 < INF))
         self.depth = 0
         self.handling: list[ExcVal] = []
         self.flags = {"checked": False, "yielded": False, "suspended": 0}
         self.events: list = []  # ghost event log (calls to opaque functions etc.)
         self.loop_counters: dict = {}
         self.fn_stack: list[str] = []
+        self.frames: list = []
         self.notes: list[str] = []
 
     # -- decisions ---------------------------------------------------------
@@ -351,7 +359,7 @@ class Interp:
                 return z3.ToReal(v.t)
             return v.t
         if v is None:
-            return z3.IntVal(0)
+            return z3.IntVal(-1) if ty is OPTINT else z3.IntVal(0)
         if isinstance(v, bool):
             return z3.BoolVal(v)
         if isinstance(v, int):
@@ -394,6 +402,8 @@ class Interp:
                 return v.t
             if v.ty is INT:
                 return v.t != 0
+            if v.ty is OPTINT:
+                return z3.And(v.t != -1, v.t != 0)
             if v.ty is REAL:
                 return v.t != 0
             if v.ty is BYTES:
@@ -518,6 +528,14 @@ class Interp:
             raise Unsupported(f"attribute {cn}.{attr} is not modelled")
         if isinstance(obj, ExcVal):
             return self.lib.exc_getattr(self, obj, attr)
+        if isinstance(obj, SuperVal):
+            for b in CLASSES[obj.owner].bases:
+                fm = self.find_method(b, attr)
+                if fm is not None:
+                    return BoundMethod(fm[0], obj.self_val)
+            if attr == "__init__":
+                return Builtin("object.__init__", lambda ip, *a, **k: None)
+            raise Unsupported(f"super().{attr}")
         if isinstance(obj, ClassVal):
             if obj.info is not None:
                 fm = self.find_method(obj.info.name, attr)
@@ -552,7 +570,19 @@ class Interp:
 
     def read_field(self, cn, attr, ref):
         ty = CLASSES[cn].fields[attr]
-        return self.wrap(self.st.get(cn, attr, ref), ty)
+        t = self.st.get(cn, attr, ref)
+        if ty is REAL:
+            return self.split_real(t)
+        return self.wrap(t, ty)
+
+    def split_real(self, t):
+        """symbolic reals are finite; the infinities are python floats (so inf arithmetic is Python's)"""
+        if self.ctx.branch(t == INF, "is-inf"):
+            return float("inf")
+        if self.ctx.branch(t == NEG_INF, "is-neg-inf"):
+            return float("-inf")
+        self.st.assume(z3.And(NEG_INF < t, t < INF))
+        return Sym(t, REAL)
 
     def setattr(self, obj, attr, val):
         if is_ref(obj):
@@ -677,6 +707,7 @@ class Interp:
         if ctx.depth > Ctx.MAX_DEPTH:
             raise Unsupported("call depth exceeded (recursion needs a contract)")
         ctx.fn_stack.append(f.qualname)
+        ctx.frames.append((f, env))
         try:
             for node in _walk_own(f.node):
                 if isinstance(node, ast.Nonlocal):
@@ -688,6 +719,7 @@ class Interp:
             return None
         finally:
             ctx.fn_stack.pop()
+            ctx.frames.pop()
             ctx.depth -= 1
 
     def do_await(self, v):
@@ -1063,6 +1095,13 @@ class Interp:
             return r
         if isinstance(a, (int, float)) and not isinstance(a, bool) and isinstance(b, (int, float)) and not isinstance(b, bool):
             return _PYOPS[type(op)](a, b)
+        # +-inf with a finite symbolic number (symbolic reals are finite, see split_real)
+        inf = float("inf")
+        if isinstance(op, (ast.Add, ast.Sub)):
+            if a in (inf, -inf) and isinstance(a, float) and isinstance(b, Sym) and b.ty in (INT, REAL):
+                return a
+            if isinstance(b, float) and b in (inf, -inf) and isinstance(a, Sym) and a.ty in (INT, REAL):
+                return b if isinstance(op, ast.Add) else -b
         num = lambda v: isinstance(v, (int, float)) and not isinstance(v, bool) or (isinstance(v, Sym) and v.ty in (INT, REAL))
         if num(a) and num(b):
             real = any((isinstance(v, float)) or (isinstance(v, Sym) and v.ty is REAL) for v in (a, b))
@@ -1126,6 +1165,15 @@ class Interp:
         if _is_pynum(a) and _is_pynum(b):
             return _PYCMP[type(op)](a, b)
         if _is_num(a) and _is_num(b):
+            inf = float("inf")
+            for x, y, flip in ((a, b, False), (b, a, True)):
+                if isinstance(x, float) and x in (inf, -inf) and isinstance(y, Sym):
+                    # y is finite: the comparison is decided
+                    big = x == inf
+                    o = type(op)
+                    if flip:  # y OP x
+                        return {ast.Lt: big, ast.LtE: big, ast.Gt: not big, ast.GtE: not big}[o]
+                    return {ast.Lt: not big, ast.LtE: not big, ast.Gt: big, ast.GtE: big}[o]
             real = any(isinstance(v, float) or (isinstance(v, Sym) and v.ty is REAL) for v in (a, b))
             ty = REAL if real else INT
             ta, tb = self.term(a, ty), self.term(b, ty)
@@ -1167,6 +1215,8 @@ class Interp:
                     return False
                 return sa.t == other.t
             if other is None:
+                if sa.ty is OPTINT:
+                    return sa.t == -1
                 if sa.ty.sort() == z3.IntSort() and sa.ty is not INT:
                     return sa.t == 0
                 return False
@@ -1177,6 +1227,8 @@ class Interp:
                     return sa.t == (1 if other else 0)
                 return False
             if isinstance(other, (int, float)):
+                if isinstance(other, float) and other in (float("inf"), float("-inf")):
+                    return False  # symbolic numbers are finite
                 if sa.ty in (INT, REAL):
                     return sa.t == self.term(other, sa.ty)
                 return False
@@ -1256,7 +1308,7 @@ def _is_pynum(v):
 
 
 def _is_num(v):
-    return _is_pynum(v) or (isinstance(v, Sym) and v.ty in (INT, REAL))
+    return _is_pynum(v) or (isinstance(v, Sym) and v.ty in (INT, REAL, OPTINT))
 
 
 import operator  # noqa: E402
